@@ -673,7 +673,7 @@ func runC19Real(t *testing.T, rng *rand.Rand, rec *sim.Rec, tier string, caseNo 
 	}
 	p0 := probe.LocalAddr().(*net.UDPAddr).Port
 	_ = probe.Close()
-	width := 1 + rng.Intn(2)
+	width := 2 + rng.Intn(2)
 	if p0+width > 65535 {
 		p0 -= width
 	}
@@ -702,10 +702,27 @@ func runC19Real(t *testing.T, rng *rand.Rand, rec *sim.Rec, tier string, caseNo 
 	nClients := width + 1 + rng.Intn(2)
 	var live []*realClient
 	owners := map[string]int{}
+	firstPort := 0
 	for i := 0; i < nClients; i++ {
-		c, err := net.ListenUDP("udp4", &net.UDPAddr{IP: net.IPv4(127, 0, 0, 1)})
+		// clients sit on different loopback addresses (Linux answers for all of 127/8), the second
+		// one on the same source port as the first: their 5-tuples differ in the source IP only
+		ip := net.IPv4(127, 0, 0, byte(1+i))
+		want := 0
+		if i == 1 {
+			want = firstPort
+		}
+		c, err := net.ListenUDP("udp4", &net.UDPAddr{IP: ip, Port: want})
+		if err != nil {
+			c, err = net.ListenUDP("udp4", &net.UDPAddr{IP: ip})
+		}
+		if err != nil {
+			c, err = net.ListenUDP("udp4", &net.UDPAddr{IP: net.IPv4(127, 0, 0, 1)})
+		}
 		if err != nil {
 			return
+		}
+		if i == 0 {
+			firstPort = c.LocalAddr().(*net.UDPAddr).Port
 		}
 		defer c.Close() //nolint:errcheck
 		rc := &realClient{c: c, srv: srvAddr, rng: rng}
@@ -767,6 +784,22 @@ func runC19Real(t *testing.T, rng *rand.Rand, rec *sim.Rec, tier string, caseNo 
 		} else if len(owners) == len(live) {
 			// (with a shared address the datagram may have gone to the other holder: already reported)
 			rec.Ev("real-datagram-not-seen") // wall-clock absence: not a verdict on a loaded machine
+			// ... but its presence at somebody else's socket is one
+			for j, other := range live {
+				if j == i {
+					continue
+				}
+				for {
+					_ = other.c.SetReadDeadline(time.Now().Add(150 * time.Millisecond))
+					n, _, err := other.c.ReadFromUDP(buf)
+					if err != nil {
+						break
+					}
+					if bytes.Contains(buf[:n], tag) {
+						rec.Violate("relay-unreachable", "real/misdelivered", "a peer's datagram to the relayed address %s of client %d came out at client %d (%s) instead (real sockets, several clients on one UDP listener)", rc.relay, i, j, other.c.LocalAddr())
+					}
+				}
+			}
 		}
 	}
 	rec.SetSample(map[string]any{"kind": "real-sockets", "range_width": width, "clients": nClients, "successes": len(live)})
@@ -783,8 +816,8 @@ func init() {
 			return 1500
 		},
 		Run: func(t *testing.T, rng *rand.Rand, rec *sim.Rec, tier string, caseNo int) {
-			if caseNo%50 == 49 {
-				runC19Real(t, rng, rec, tier, caseNo/50)
+			if caseNo%25 == 24 {
+				runC19Real(t, rng, rec, tier, caseNo/25)
 
 				return
 			}
